@@ -200,3 +200,19 @@ package types
 //@   ensures !sup ==> err == ErrTxTypeNotSupported
 //@   ensures err == nil && txTypeOf(tx) != 0 ==> cid == bigval(s.chainID)
 //@   atcall recoverPlain requires bigval(arg4) == v0 + 27 && arg5
+
+// sanityCheckSignature (used when a transaction is decoded or built from raw values): accepted
+// values have r and s in [1, N-1]; a v that cannot be EIP-155 protected must be the bare recovery
+// id 0/1, an optionally protected but unprotected v must be 27/28 (not 0/1), and a protected v is
+// refused where protection is not allowed. (Values 2..26 and 29..34 count as "protected" here and
+// pass with a wrapped chain id - deriveChainId computes (v-35)/2 in uint64; the Sender methods above
+// refuse them, which is what the property asks of recovery, so this is noted, not claimed.)
+//@ func sanityCheckSignature(v *big.Int, r *big.Int, s *big.Int, maybeProtected bool) (err error)
+//@   serves C03
+//@   requires bigval(v) >= 0
+//@   mutates
+//@   noframe
+//@   ensures err == nil ==> 1 <= bigval(r) && bigval(r) < 115792089237316195423570985008687907852837564279074904382605163141518161494337 && 1 <= bigval(s) && bigval(s) < 115792089237316195423570985008687907852837564279074904382605163141518161494337
+//@   ensures err == nil && !maybeProtected ==> bigval(v) == 0 || bigval(v) == 1
+//@   ensures err == nil && maybeProtected && (bigval(v) == 0 || bigval(v) == 1 || bigval(v) == 27 || bigval(v) == 28) ==> bigval(v) == 27 || bigval(v) == 28
+//@   ensures !maybeProtected && !(bigval(v) == 0 || bigval(v) == 1 || bigval(v) == 27 || bigval(v) == 28) ==> err == ErrUnexpectedProtection
